@@ -279,11 +279,14 @@ stored rule is open to everybody (`IdentifyAccount`), but what it owns cannot be
 def sxEnv : SigLogic.Env where
   acctOk := fun n uris => if n < 4 then uris.any (fun u => u.prefixAcct == some n && u.addr == n) else true
   acctExists := fun n => n < 4
+  -- method 1 = `$xvgate.guarded`, rule {A3: 1, C2: 1}, threshold 1: address 3 among the users, or account 2 through its key
+  methodOk := fun m us => m != 1 || us.any (fun u => (u.prefixAcct == none && u.addr == 3) || (u.prefixAcct == some 2 && u.addr == 2))
 
 def sxAct (tok : String) : Option (Bool × List SigLogic.AclWrite) :=
   match tok.toList with
   | ['T'] => some (false, [])
   | ['K'] => some (true, [])
+  | ['G'] => some (true, [])
   | ['S', ':', 'C', d] => (sxNum (String.singleton d) 4).map fun n => (true, [.account n])
   | ['N', ':', 'C', d] => match sxNum (String.singleton d) 6 with
     | some n => if 4 ≤ n then some (true, [.account n]) else none
@@ -323,7 +326,8 @@ def sx (ws : List String) : String :=
       initiatorSigns := if form == "c" then isg else [], authRequire := auth,
       authRequireSigns := if form == "c" then asg else [],
       xuper := if form == "x" then some { keyAddrs := xk.map some, sigOk := sigOk, multi := xst == "m" } else none,
-      inputs := ins.map fun o => { owner := o }, hasRequests := hasReq, aclWrites := writes }
+      inputs := ins.map fun o => { owner := o }, hasRequests := hasReq, aclWrites := writes,
+      calls := if (← kv1 ws "act") == "G" then [1] else if hasReq then [0] else [] }
     let relies := ch == "m" && !ins.isEmpty
     let v := SigLogic.stateVerifyTx relies sxEnv t
     pure s!"verify={if v.ok then "accept" else "reject"} pool={if SigLogic.submitTx relies sxEnv t true then "in" else "out"}"
